@@ -228,6 +228,56 @@ func C15(r *core.Run) {
 		}
 		emit(out)
 	})
+	// roots whose path contains characters that mean something to a file-name pattern, next to a directory such a
+	// pattern would match: the rewriting commands given -d <odd root> must write there and nowhere else
+	odd, d2 := core.Parallel(r, "oddroots", in{dir, nil}, r.Workers, func(in in, shard, n int, emit func(c15Out)) {
+		out := c15Out{Exits: map[string]int{}, TouchedSets: map[string]bool{}}
+		sb := filepath.Join(in.Dir, fmt.Sprint("o", shard))
+		idx := 0
+		for _, names := range [][2]string{{"crs[1]", "crs1"}, {"c?s", "crs"}, {"cr*", "crsx"}, {"a[b-c]d", "abd"}, {`c\rs`, "crs"}, {"{crs}", "crs"}} {
+			for _, cmd := range c15Commands() {
+				if cmd.Inspect || strings.Contains(cmd.Name, "missing") {
+					continue
+				}
+				if idx++; idx%n != shard {
+					continue
+				}
+				os.RemoveAll(sb)
+				t := core.Tree{}
+				for k, v := range miniCRS() {
+					t[names[0]+"/"+k] = v
+					t[names[1]+"/"+k] = v
+				}
+				t.Materialise(sb)
+				before := core.Snapshot(sb)
+				args := append([]string{"-d", filepath.Join(sb, names[0])}, cmd.Args...)
+				r.Inflight(fmt.Sprint(names, cmd.Name))
+				res := core.RunCLI(r.Crs, sb, cmd.Stdin, []string{"HOME=" + sb, "TMPDIR=" + sb}, args...)
+				changed := before.Diff(core.Snapshot(sb), true)
+				out.Runs++
+				out.Exits[fmt.Sprint(cmd.Name, "=", res.Exit)]++
+				var bad []string
+				inside := 0
+				for _, c := range changed {
+					_, p, _ := strings.Cut(c, ":")
+					if strings.HasPrefix(p, names[0]+"/") {
+						inside++
+					} else {
+						bad = append(bad, c)
+					}
+				}
+				if res.Exit == 0 && inside == 0 {
+					bad = append(bad, "exit 0 but nothing below the addressed root "+names[0]+" changed")
+				}
+				if len(bad) > 0 {
+					out.Bad = append(out.Bad, c15Res{cmd.Name + " (root " + names[0] + ")", args, "-d odd root", 0, res.Exit, changed, bad, tailStr(res.Stderr, 300)})
+				}
+			}
+		}
+		emit(out)
+	})
+	deaths = append(deaths, d2...)
+	outs = append(outs, odd...)
 	if r.IsWorker() {
 		return
 	}
